@@ -505,9 +505,21 @@ def capsuleSelect {H : Type} (tOf : H → α) (colls : List H) (originInside : B
     let lastCall := s.getLast?.toList
     ((1 : Nat) + (if !originInside then 1 else 0), if cb then firstCall ++ lastCall else [])
 
-/-- Candidates of `Capsule.RayCollisions`: the two end spheres' callbacks, then the side hits. -/
+/-- The hemisphere filter of `Capsule.RayCollisions` (since the repair of the on-surface-origin defect):
+a collision with the end sphere around `p` is kept only on the outer half, `(point - p)·(P2 - P1) ≤ 0` for
+the first end and `≥ 0` for the second. -/
+def capsuleKeep (p1 p2 o d : V3 α) (firstEnd : Bool) (p : V3 α) (h : Hit α) : Bool :=
+  let axis := p2.sub p1
+  let point := o.along d h.t
+  let along := (point.sub p).dot axis
+  if firstEnd then decide (along ≤ 0) else decide (0 ≤ along)
+
+/-- Candidates of `Capsule.RayCollisions`: the two end spheres' callbacks on their outer halves, then the
+side hits. -/
 def capsuleCands (sqrtF : α → α) (p1 p2 : V3 α) (radius : α) (o d : V3 α) : List (Hit α) :=
-  sphereHits sqrtF p1 radius o d ++ sphereHits sqrtF p2 radius o d ++ cylSideHits sqrtF p1 p2 radius o d
+  (sphereHits sqrtF p1 radius o d).filter (capsuleKeep p1 p2 o d true p1) ++
+    (sphereHits sqrtF p2 radius o d).filter (capsuleKeep p1 p2 o d false p2) ++
+    cylSideHits sqrtF p1 p2 radius o d
 
 /-! ## `Capsule.Contains` and the whole `Capsule` -/
 
